@@ -8,24 +8,24 @@ import DoitModel.Proofs.C08Conf14
     sequence.  Restriction: graphs without calc_dep (`NoCalc`). -/
 namespace DoitModel.Run
 
-theorem reachable_invDen {inp : RunInput} {s : Sys} (hnc : NoCalc inp) (hr : Reach inp s ∨ PReach inp s) : InvDen inp s := by
+theorem reachable_invDen {inp : RunInput} [NoFailDeliver inp] {s : Sys} (hnc : NoCalc inp) (hr : Reach inp s ∨ PReach inp s) : InvDen inp s := by
   rcases hr with h | h
   · exact reach_invDen hnc h
   · exact preach_invDen hnc h
 
 /-- a finished run_status is the status of THE derived outcome of the task -/
-theorem status_is_den {inp : RunInput} {s : Sys} (hnc : NoCalc inp) (hr : Reach inp s ∨ PReach inp s) (t : Name)
+theorem status_is_den {inp : RunInput} [NoFailDeliver inp] {s : Sys} (hnc : NoCalc inp) (hr : Reach inp s ∨ PReach inp s) (t : Name)
     (hf : (stOf s t).finished = true) : ∃ d, DenOf inp t d ∧ d.rs = stOf s t :=
   (reachable_invDen hnc hr).fin t hf
 
 /-- a terminal report (success / up-to-date / ignored / failure of kind k) is THE derived outcome of the task -/
-theorem report_is_den {inp : RunInput} {s : Sys} (hnc : NoCalc inp) (hr : Reach inp s ∨ PReach inp s) (t : Name)
+theorem report_is_den {inp : RunInput} [NoFailDeliver inp] {s : Sys} (hnc : NoCalc inp) (hr : Reach inp s ∨ PReach inp s) (t : Name)
     (d : Den) (h : ∃ e ∈ s.events, Ev.den? t e = some d) : DenOf inp t d := by
   obtain ⟨e, he, hd⟩ := h
   exact (reachable_invDen hnc hr).den.rep e he t d hd
 
 /-- the same, on the observable trace as the monitors read it -/
-theorem reportOf_is_den {inp : RunInput} {s : Sys} (hnc : NoCalc inp) (hr : Reach inp s ∨ PReach inp s) (t : Name)
+theorem reportOf_is_den {inp : RunInput} [NoFailDeliver inp] {s : Sys} (hnc : NoCalc inp) (hr : Reach inp s ∨ PReach inp s) (t : Name)
     (d : Den) (h : reportOf (trace inp s) t = some d) : DenOf inp t d := by
   unfold reportOf at h
   obtain ⟨e, he, hd⟩ := List.exists_of_findSome?_eq_some h
@@ -39,7 +39,7 @@ theorem SameTasks.noCalc {a b : RunInput} (h : SameTasks a b) (hnc : NoCalc a) :
 
 /-- two runs of the same task table — any runner kind, any number of processes, any selection, with or without
     `--continue`, any schedule — give a task they both finish the same `run_status` -/
-theorem confluent_status {inp1 inp2 : RunInput} {s1 s2 : Sys} (hsame : SameTasks inp1 inp2) (hnc : NoCalc inp1)
+theorem confluent_status {inp1 inp2 : RunInput} [NoFailDeliver inp2] [NoFailDeliver inp1] {s1 s2 : Sys} (hsame : SameTasks inp1 inp2) (hnc : NoCalc inp1)
     (h1 : Reach inp1 s1 ∨ PReach inp1 s1) (h2 : Reach inp2 s2 ∨ PReach inp2 s2) (t : Name)
     (f1 : (stOf s1 t).finished = true) (f2 : (stOf s2 t).finished = true) : stOf s1 t = stOf s2 t := by
   obtain ⟨d1, a1, b1⟩ := status_is_den hnc h1 t f1
@@ -47,13 +47,13 @@ theorem confluent_status {inp1 inp2 : RunInput} {s1 s2 : Sys} (hsame : SameTasks
   rw [← b1, ← b2, a1.functional (a2.same hsame.symm)]
 
 /-- … and the same terminal report (including the failure kind) -/
-theorem confluent_report {inp1 inp2 : RunInput} {s1 s2 : Sys} (hsame : SameTasks inp1 inp2) (hnc : NoCalc inp1)
+theorem confluent_report {inp1 inp2 : RunInput} [NoFailDeliver inp2] [NoFailDeliver inp1] {s1 s2 : Sys} (hsame : SameTasks inp1 inp2) (hnc : NoCalc inp1)
     (h1 : Reach inp1 s1 ∨ PReach inp1 s1) (h2 : Reach inp2 s2 ∨ PReach inp2 s2) (t : Name) (d1 d2 : Den)
     (r1 : ∃ e ∈ s1.events, Ev.den? t e = some d1) (r2 : ∃ e ∈ s2.events, Ev.den? t e = some d2) : d1 = d2 :=
   (report_is_den hnc h1 t d1 r1).functional ((report_is_den (hsame.noCalc hnc) h2 t d2 r2).same hsame.symm)
 
 /-- the pair monitor's per-task clause: where both traces report `t`, the reports are equal -/
-theorem confluent_reportOf {inp1 inp2 : RunInput} {s1 s2 : Sys} (hsame : SameTasks inp1 inp2) (hnc : NoCalc inp1)
+theorem confluent_reportOf {inp1 inp2 : RunInput} [NoFailDeliver inp2] [NoFailDeliver inp1] {s1 s2 : Sys} (hsame : SameTasks inp1 inp2) (hnc : NoCalc inp1)
     (h1 : Reach inp1 s1 ∨ PReach inp1 s1) (h2 : Reach inp2 s2 ∨ PReach inp2 s2) (t : Name)
     (r1 : (reportOf (trace inp1 s1) t).isSome = true) (r2 : (reportOf (trace inp2 s2) t).isSome = true) :
     reportOf (trace inp1 s1) t = reportOf (trace inp2 s2) t := by
@@ -64,7 +64,7 @@ theorem confluent_reportOf {inp1 inp2 : RunInput} {s1 s2 : Sys} (hsame : SameTas
   rw [this]
 
 /-- a status and a report of the same task agree, also across runs -/
-theorem status_matches_report {inp1 inp2 : RunInput} {s1 s2 : Sys} (hsame : SameTasks inp1 inp2) (hnc : NoCalc inp1)
+theorem status_matches_report {inp1 inp2 : RunInput} [NoFailDeliver inp2] [NoFailDeliver inp1] {s1 s2 : Sys} (hsame : SameTasks inp1 inp2) (hnc : NoCalc inp1)
     (h1 : Reach inp1 s1 ∨ PReach inp1 s1) (h2 : Reach inp2 s2 ∨ PReach inp2 s2) (t : Name) (d : Den)
     (f1 : (stOf s1 t).finished = true) (r2 : ∃ e ∈ s2.events, Ev.den? t e = some d) : stOf s1 t = d.rs := by
   obtain ⟨d1, a1, b1⟩ := status_is_den hnc h1 t f1
@@ -73,19 +73,19 @@ theorem status_matches_report {inp1 inp2 : RunInput} {s1 s2 : Sys} (hsame : Same
 /-! ### against the executable denotation `denF` (acyclic graphs) -/
 
 /-- every terminal report of a run equals `denF` (fuel above the rank): the per-task clause of `monC08Den` -/
-theorem report_is_denF {inp : RunInput} {s : Sys} {r : Name → Nat} (hnc : NoCalc inp) (hac : Acyclic inp r)
+theorem report_is_denF {inp : RunInput} [NoFailDeliver inp] {s : Sys} {r : Name → Nat} (hnc : NoCalc inp) (hac : Acyclic inp r)
     (hr : Reach inp s ∨ PReach inp s) (t : Name) (d : Den) (f : Nat) (hf : r t < f)
     (h : reportOf (trace inp s) t = some d) : denF inp f t = d :=
   denF_unique hac (reportOf_is_den hnc hr t d h) f hf
 
-theorem status_is_denF {inp : RunInput} {s : Sys} {r : Name → Nat} (hnc : NoCalc inp) (hac : Acyclic inp r)
+theorem status_is_denF {inp : RunInput} [NoFailDeliver inp] {s : Sys} {r : Name → Nat} (hnc : NoCalc inp) (hac : Acyclic inp r)
     (hr : Reach inp s ∨ PReach inp s) (t : Name) (f : Nat) (hf : r t < f)
     (h : (stOf s t).finished = true) : (denF inp f t).rs = stOf s t := by
   obtain ⟨d, a, b⟩ := status_is_den hnc hr t h
   rw [denF_unique hac a f hf]; exact b
 
 /-- the first conjunct of the monitor `monC08Den`, for the model's own traces -/
-theorem C08_monitor_reports {inp : RunInput} {s : Sys} {r : Name → Nat} (hnc : NoCalc inp) (hac : Acyclic inp r)
+theorem C08_monitor_reports {inp : RunInput} [NoFailDeliver inp] {s : Sys} {r : Name → Nat} (hnc : NoCalc inp) (hac : Acyclic inp r)
     (hr : Reach inp s ∨ PReach inp s) (nTasks : Nat) (hb : ∀ t, r t ≤ nTasks) :
     ((List.range nTasks).all fun t =>
       match reportOf (trace inp s) t with
@@ -123,7 +123,7 @@ theorem exit_of_trace {inp : RunInput} {s : Sys} (hr : Reach inp s ∨ PReach in
 
 /-- two runs of the same task table that report the same set of tasks exit with the same code (the second clause of
     `monC08Pair`): by confluence the reports per task are equal, and the exit code only reads the set of failure kinds -/
-theorem confluent_exit {inp1 inp2 : RunInput} {s1 s2 : Sys} (hsame : SameTasks inp1 inp2) (hnc : NoCalc inp1)
+theorem confluent_exit {inp1 inp2 : RunInput} [NoFailDeliver inp2] [NoFailDeliver inp1] {s1 s2 : Sys} (hsame : SameTasks inp1 inp2) (hnc : NoCalc inp1)
     (h1 : Reach inp1 s1 ∨ PReach inp1 s1) (h2 : Reach inp2 s2 ∨ PReach inp2 s2)
     (hh1 : s1.halt = .none) (hh2 : s2.halt = .none)
     (hset : ∀ t, (∃ d, ∃ e ∈ s1.events, Ev.den? t e = some d) ↔ (∃ d, ∃ e ∈ s2.events, Ev.den? t e = some d)) :
@@ -161,7 +161,7 @@ theorem DenCl_same {a b : RunInput} (h : SameTasks a b) (hsel : ∀ t, t ∈ a.s
   | ofSetup _ hr hd ih => exact DenCl.ofSetup ih (R1_same h hr) (by rw [← h.setup]; exact hd)
 
 /-- two complete runs of the same task table and selection (any runner, any schedule) report the same tasks -/
-theorem complete_runs_same_reported {inp1 inp2 : RunInput} {s1 s2 : Sys} (hsame : SameTasks inp1 inp2)
+theorem complete_runs_same_reported {inp1 inp2 : RunInput} [NoFailDeliver inp2] [NoFailDeliver inp1] {s1 s2 : Sys} (hsame : SameTasks inp1 inp2)
     (hsel : ∀ t, t ∈ inp1.sel ↔ t ∈ inp2.sel) (hnc : NoCalc inp1)
     (h1 : Reach inp1 s1 ∨ PReach inp1 s1) (h2 : Reach inp2 s2 ∨ PReach inp2 s2)
     (e1 : s1.rpc = .halted ∧ s1.halt = .none ∧ s1.stop = false)
@@ -171,7 +171,7 @@ theorem complete_runs_same_reported {inp1 inp2 : RunInput} {s1 s2 : Sys} (hsame 
   exact ⟨DenCl_same hsame (fun t => (hsel t).mp), DenCl_same hsame.symm (fun t => (hsel t).mpr)⟩
 
 /-- … and exit with the same code: the whole of `monC08Pair` for complete runs -/
-theorem complete_runs_same_exit {inp1 inp2 : RunInput} {s1 s2 : Sys} (hsame : SameTasks inp1 inp2)
+theorem complete_runs_same_exit {inp1 inp2 : RunInput} [NoFailDeliver inp2] [NoFailDeliver inp1] {s1 s2 : Sys} (hsame : SameTasks inp1 inp2)
     (hsel : ∀ t, t ∈ inp1.sel ↔ t ∈ inp2.sel) (hnc : NoCalc inp1)
     (h1 : Reach inp1 s1 ∨ PReach inp1 s1) (h2 : Reach inp2 s2 ∨ PReach inp2 s2)
     (e1 : s1.rpc = .halted ∧ s1.halt = .none ∧ s1.stop = false)
@@ -192,7 +192,7 @@ theorem exitOfDens_failset {ds ds' : List Den} (h : ∀ k, Den.fail k ∈ ds ↔
 
 /-- the exit code of a complete run is the denotation's: `exitOfDens` over the outcomes of the closure, however the
     closure is enumerated (`L`) and the outcomes are computed (`den`) -/
-theorem complete_exit_is_den {inp : RunInput} {s : Sys} (hnc : NoCalc inp) (hr : Reach inp s ∨ PReach inp s)
+theorem complete_exit_is_den {inp : RunInput} [NoFailDeliver inp] {s : Sys} (hnc : NoCalc inp) (hr : Reach inp s ∨ PReach inp s)
     (hend : s.rpc = .halted) (hhalt : s.halt = .none) (hstop : s.stop = false)
     (L : List Name) (hL : ∀ t, t ∈ L ↔ DenCl inp t) (den : Name → Den) (hden : ∀ t ∈ L, DenOf inp t (den t)) :
     exitCode s = exitOfDens (L.map den) := by
@@ -230,7 +230,7 @@ theorem denClosure_spec {inp : RunInput} {r : Name → Nat} (hac : Acyclic inp r
   denClosureSpec_of_stable hac nTasks hb (closureStable hac nTasks hb hlt)
 
 /-- the exit clause of `monC08Den` -/
-theorem complete_exit_is_denExit {inp : RunInput} {s : Sys} {r : Name → Nat} (hnc : NoCalc inp)
+theorem complete_exit_is_denExit {inp : RunInput} [NoFailDeliver inp] {s : Sys} {r : Name → Nat} (hnc : NoCalc inp)
     (hac : Acyclic inp r) (hr : Reach inp s ∨ PReach inp s)
     (hend : s.rpc = .halted) (hhalt : s.halt = .none) (hstop : s.stop = false)
     (nTasks : Nat) (hb : ∀ t, r t ≤ nTasks) (hst : ClosureStable inp nTasks) :
@@ -252,7 +252,7 @@ theorem reportOf_isSome_iff (inp : RunInput) (s : Sys) (t : Name) :
 
 /-- the monitor `monC08Den` (the property (P) of C08 against the denotation) holds of every trace of the model:
     every prefix satisfies the report clause; a complete run also the closure and the exit-code clause -/
-theorem C08_monitor_den {inp : RunInput} {s : Sys} {r : Name → Nat} (hnc : NoCalc inp) (hac : Acyclic inp r)
+theorem C08_monitor_den {inp : RunInput} [NoFailDeliver inp] {s : Sys} {r : Name → Nat} (hnc : NoCalc inp) (hac : Acyclic inp r)
     (hr : Reach inp s ∨ PReach inp s) (nTasks : Nat) (hb : ∀ t, r t ≤ nTasks) (hst : ClosureStable inp nTasks)
     (complete : Bool) (hc : complete = true → s.rpc = .halted ∧ s.halt = .none ∧ s.stop = false) :
     monC08Den inp nTasks (trace inp s) (exitCode s) complete = true := by
@@ -271,7 +271,7 @@ theorem C08_monitor_den {inp : RunInput} {s : Sys} {r : Name → Nat} (hnc : NoC
 
 /-- `C08_monitor_den` with the stability of the computed closure discharged: it suffices that the closure of the
     selection consists of task numbers below `nTasks` -/
-theorem C08_monitor_den' {inp : RunInput} {s : Sys} {r : Name → Nat} (hnc : NoCalc inp) (hac : Acyclic inp r)
+theorem C08_monitor_den' {inp : RunInput} [NoFailDeliver inp] {s : Sys} {r : Name → Nat} (hnc : NoCalc inp) (hac : Acyclic inp r)
     (hr : Reach inp s ∨ PReach inp s) (nTasks : Nat) (hb : ∀ t, r t ≤ nTasks)
     (hlt : ∀ t, DenCl inp t → t < nTasks)
     (complete : Bool) (hc : complete = true → s.rpc = .halted ∧ s.halt = .none ∧ s.stop = false) :
@@ -279,7 +279,7 @@ theorem C08_monitor_den' {inp : RunInput} {s : Sys} {r : Name → Nat} (hnc : No
   C08_monitor_den hnc hac hr nTasks hb (closureStable hac nTasks hb hlt) complete hc
 
 /-- the pair monitor `monC08Pair` holds of any two complete runs of the same task table and selection -/
-theorem C08_monitor_pair {inp1 inp2 : RunInput} {s1 s2 : Sys} (hsame : SameTasks inp1 inp2)
+theorem C08_monitor_pair {inp1 inp2 : RunInput} [NoFailDeliver inp2] [NoFailDeliver inp1] {s1 s2 : Sys} (hsame : SameTasks inp1 inp2)
     (hsel : ∀ t, t ∈ inp1.sel ↔ t ∈ inp2.sel) (hnc : NoCalc inp1)
     (h1 : Reach inp1 s1 ∨ PReach inp1 s1) (h2 : Reach inp2 s2 ∨ PReach inp2 s2)
     (e1 : s1.rpc = .halted ∧ s1.halt = .none ∧ s1.stop = false)
@@ -312,6 +312,8 @@ def exC08 : RunInput :=
     sel := [1, 3], continue_ := true
     outcome := fun n => if n = 2 then .failed else .ok
     runner := .thread, numProc := 2 }
+
+instance : NoFailDeliver exC08 := ⟨fun _ => rfl⟩
 
 theorem exC08_noCalc : NoCalc exC08 := fun _ => rfl
 
